@@ -47,7 +47,7 @@ func (sk *storeKey) clone(newId uint64) *storeKey {
 			payload = bytes
 		} else if flagHasOne(sk.flags, FLAG_KEY_TYPE_LIST) {
 			sl := sk.payload.(*storeList)
-			newSl := storeList{}
+			newSl := &storeList{}
 			for p := sl.head; p != nil; p = p.next {
 				element := make([]byte, len(p.element))
 				copy(element, p.element)
@@ -55,26 +55,24 @@ func (sk *storeKey) clone(newId uint64) *storeKey {
 					prev:    newSl.tail,
 					element: element,
 				}
-				newSl.tail = item
-				if newSl.head == nil {
+				if newSl.tail != nil {
+					newSl.tail.next = item
+				} else {
 					newSl.head = item
 				}
+				newSl.tail = item
+				newSl.count++
 			}
-			payload = &newSl
-		} else if flagHasOne(sk.flags, FLAG_KEY_TYPE_HASH_TABLE) {
-			m := sk.payload.(map[string]string)
-			newMap := make(map[string]string, len(m))
-			for k, v := range m {
-				newMap[k] = v
+			payload = newSl
+		} else if flagHasOne(sk.flags, FLAG_KEY_TYPE_HASH_TABLE) || flagHasOne(sk.flags, FLAG_KEY_TYPE_SET) {
+			// hashes and sets are both kept in a redisDict (string values, or
+			// struct{}{} for set members)
+			d := sk.payload.(*redisDict)
+			newDict := newRedisDict()
+			for it := d.createIterator(); it.next(); {
+				newDict.store(it.key, it.value)
 			}
-			payload = newMap
-		} else if flagHasOne(sk.flags, FLAG_KEY_TYPE_SET) {
-			m := sk.payload.(map[string]struct{})
-			newMap := make(map[string]struct{}, len(m))
-			for k := range m {
-				newMap[k] = struct{}{}
-			}
-			payload = newMap
+			payload = newDict
 		} else {
 			panic("unexpected payload type")
 		}
